@@ -31,7 +31,7 @@ BUDGET = {
 
 @st.composite
 def cases(draw, max_steps):
-    spec = draw(G.specs())
+    spec = draw(G.specs(big=0.25 if max_steps > 8 else 0.0))
     hist = draw(G.histories(spec, min_steps=1, max_steps=max_steps))
     return {"spec": spec, "id_seed": draw(st.integers(0, 2 ** 20)), "history": hist}
 
